@@ -5,7 +5,7 @@ import os
 from harness import common, gen_text, textimpl
 from harness.common import cps
 
-BRIDGE = ('Gemato.Bridge.Text', 'Gemato.Bridge.SrcText')
+BRIDGE = ('Gemato.Bridge.Text', 'Gemato.Bridge.SrcText', 'Gemato.Bridge.SrcCodec')
 def compare_load(ctx, drv, text, mode, label, expect=None):
     """run impl and model on one text; record disagreements / property failures"""
     if mode == 'file':
